@@ -1,18 +1,38 @@
 (* CasesChain.v — correspondence driver for whole-chain scripts: genesis + operations, full snapshot after each. *)
 From MD.Model Require Import Base Ownable Epoch PoolMath Types PoolManager FarmManager Chain.
 
+(* queries interleaved with the operations; their answers are part of the compared trace *)
+Inductive query :=
+| QSimulation (offer : coin) (ask pool : string)
+| QReverseSimulation (ask : coin) (offer_denom pool : string)
+| QSimulateOps (amount : Z) (ops : list swap_op)
+| QReverseSimulateOps (amount : Z) (ops : list swap_op)
+| QRewards (addr : string) (until : option Z).
+
+Inductive cop := COp (o : op) | CQuery (q : query).
+
 Record chain_case := {
   cc_gen : genesis_cfg;
   cc_addrs : list string;      (* user addresses whose balances / cursors are observed *)
   cc_denoms : list string;     (* base denoms observed (LP denoms are added from the pool table) *)
-  cc_ops : list op }.
+  cc_ops : list cop }.
 
-Fixpoint run_ops (w : world) (addrs denoms : list string) (ops : list op) : list val :=
+Definition run_query (w : world) (q : query) : val :=
+  match q with
+  | QSimulation offer ask pool => vres v_swap_computation (query_simulation (w_pm w) offer ask pool)
+  | QReverseSimulation ask od pool => vres v_offer_computation (query_reverse_simulation (w_pm w) ask od pool)
+  | QSimulateOps a ops => vres VZ (simulate_swap_operations (w_pm w) a ops)
+  | QReverseSimulateOps a ops => vres VZ (reverse_simulate_swap_operations (w_pm w) a ops)
+  | QRewards addr until => vres (fun l => VL (map v_coin l)) (query_rewards w (w_fm w) addr until)
+  end.
+
+Fixpoint run_ops (w : world) (addrs denoms : list string) (ops : list cop) : list val :=
   match ops with
   | [] => []
-  | o :: rest =>
+  | COp o :: rest =>
       let (w', ok) := step w o in
       VL [vbool ok; snapshot w' addrs denoms] :: run_ops w' addrs denoms rest
+  | CQuery q :: rest => VL [VZ 2; run_query w q] :: run_ops w addrs denoms rest
   end.
 
 Definition run_chain_case (c : chain_case) : val :=
